@@ -1222,3 +1222,81 @@ func init() {
 		return out
 	}})
 }
+
+func init() {
+	Scenarios = append(Scenarios, Scenario{Name: "S6-typed-observer-of-every-arity-moved-between-worlds", Props: []string{"C09", "C08"}, Run: func() []string {
+		// One typed observer object per arity serves world 1, is unregistered, serves world 2 (whose component IDs, tables and
+		// rows differ), and then world 1 again. In every callback the component pointers are those MapN.Get returns for the
+		// reported entity in the world the operation runs in, and they read the values just written.
+		var out []string
+		seen := map[int]bool{}
+		for t := range typed.Tuples {
+			tp := &typed.Tuples[t]
+			if tp.NewObs == nil || tp.NewMap == nil || seen[len(tp.Comps)] {
+				continue
+			}
+			seen[len(tp.Comps)] = true
+			for _, viaNew := range []bool{false, true} {
+				w1, w2 := ecs.NewWorld(4), ecs.NewWorld(4)
+				// world 2: other component IDs, an older archetype and rows in front
+				ecs.ComponentID[u.LateObs2](w2)
+				ecs.NewMap1[u.P8](w2).NewBatch(7, &u.P8{V: 5})
+				worlds := []*ecs.World{w1, w2}
+				maps := []typed.TMap{tp.NewMap(w1, false), tp.NewMap(w2, false)}
+				var rel []ecs.Relation
+				for j, c := range tp.Comps {
+					if u.Types[c].IsRel {
+						rel = append(rel, ecs.RelIdx(j, ecs.Entity{}))
+					}
+				}
+				vals := make([]int64, len(tp.Comps))
+				for i := 0; i < 3; i++ {
+					maps[1].NewEntity(vals, rel)
+				}
+				cur, calls, expect := 0, 0, int64(0)
+				obs := tp.NewObs(ecs.OnCreateEntity, viaNew)
+				obs.Do(func(e ecs.Entity, p typed.Ptrs) {
+					calls++
+					if !worlds[cur].Alive(e) {
+						out = append(out, fmt.Sprintf("Observer%d: reported entity %v is not alive in the world of the operation (world %d)", len(tp.Comps), e, cur+1))
+						return
+					}
+					g := maps[cur].Get(e)
+					for j := range g {
+						if p[j] != g[j] {
+							out = append(out, fmt.Sprintf("Observer%d in world %d: component %d of %v handed to the callback at %p, Map%d.Get has it at %p", len(tp.Comps), cur+1, j, e, p[j], len(tp.Comps), g[j]))
+							return
+						}
+						ti := &u.Types[tp.Comps[j]]
+						if v, ok := ti.Dec(p[j]); ok && !ti.ZeroSize && v != ti.Canon(expect) {
+							out = append(out, fmt.Sprintf("Observer%d in world %d: component %d of %v reads %d in the callback, %d was written", len(tp.Comps), cur+1, j, e, v, ti.Canon(expect)))
+							return
+						}
+					}
+				})
+				want := 0
+				for step, wi := range []int{0, 1, 0, 1, 1} {
+					cur, expect = wi, int64(step+1)
+					obs.Register(worlds[wi])
+					for j := range vals {
+						vals[j] = expect
+					}
+					maps[wi].NewEntity(vals, rel)
+					want++
+					obs.Unregister(worlds[wi])
+					maps[wi].NewEntity(vals, rel) // unregistered: no call
+					if calls != want && len(out) == 0 {
+						out = append(out, fmt.Sprintf("Observer%d: %d call(s) after step %d (world %d), due %d", len(tp.Comps), calls, step, wi+1, want))
+					}
+				}
+				if len(out) > 4 {
+					return out[:4]
+				}
+			}
+		}
+		if len(seen) == 0 {
+			out = append(out, "no typed observer tuple available")
+		}
+		return out
+	}})
+}
